@@ -1,5 +1,5 @@
 SPECIFICATION GenSpec
-CONSTANTS NH = 3 GranE = 2 ES = 16 MaxLen = 3 MaxArg = 3 NV = 2 Prune = TRUE Api = "xunique" MaxDepth = 8
+CONSTANTS NH = 3 GranE = 2 ES = 16 MaxLen = 3 MaxArg = 3 NV = 2 CTSet = {"elem"} Prune = TRUE Api = "xunique" MaxDepth = 8
 CONSTRAINT Bound
 VIEW Skel
 INVARIANTS TypeOK AliasOK Refines Balance AllGone
